@@ -55,7 +55,7 @@ func TestCheck(t *testing.T) {
 	// ---- model checks (started once the histories are recorded: the recording wants the CPUs for itself)
 	noTE := []string{"-noGenerateSpecTE"}
 	jobs := []*mcJob{
-		{name: "CMapImpl", opts: tlc.Opts{Dir: specDir, Module: "CMapImpl", Config: ev.Pick("MC_small.cfg", "MC_big.cfg"), Workers: 8, Timeout: ev.Pick(4*time.Minute, 30*time.Minute), HeapMB: 12000, Args: noTE}},
+		{name: "CMapImpl", opts: tlc.Opts{Dir: specDir, Module: "CMapImpl", Config: ev.Pick("MC_small.cfg", "MC_big.cfg"), Workers: 6, Timeout: ev.Pick(4*time.Minute, 30*time.Minute), HeapMB: 12000, Args: noTE}},
 		{name: "CMapImpl/defect-loadanddelete-split", wantDefect: true, opts: tlc.Opts{Dir: specDir, Module: "CMapImpl", Config: "MC_defect_lad.cfg", Workers: 2, Timeout: 3 * time.Minute, Args: noTE}},
 		{name: "CMapImpl/defect-no-doublecheck", wantDefect: true, opts: tlc.Opts{Dir: specDir, Module: "CMapImpl", Config: "MC_defect_dc.cfg", Workers: 2, Timeout: 3 * time.Minute, Args: noTE}},
 		{name: "RingMC", opts: tlc.Opts{Dir: specDir, Module: "RingMC", Config: ev.Pick("RingMC_small.cfg", "RingMC_big.cfg"), Workers: 4, Timeout: ev.Pick(4*time.Minute, 20*time.Minute), HeapMB: 8000, Args: noTE, Keep: []string{"trans.ndjson"}}},
@@ -66,18 +66,18 @@ func TestCheck(t *testing.T) {
 	traces := int64(0)
 
 	// ---- (1) linearizability of map / atomic map / slice
-	nRandom := ev.Pick(3000, 40000)
-	nDuel := ev.Pick(1800, 18000)
+	nRandom := ev.Pick(3000, 30000)
+	nDuel := ev.Pick(3600, 24300)
 	type hrec struct {
-		prog program
-		evs  []tv.M
+		prog  program
+		lines [][]byte // reset line + one JSON line per record (kept instead of the maps: 10x smaller)
 	}
 	var hists []hrec
 	overlaps := 0
 	byProg := map[string]int{}
 	record := func(p program, lockstep bool) {
 		evs, over := runProgram(p, rng, lockstep)
-		hists = append(hists, hrec{p, evs})
+		hists = append(hists, hrec{p, marshalHistory(p.Name, evs)})
 		if over {
 			overlaps++
 			byProg[p.Name]++
@@ -90,14 +90,33 @@ func TestCheck(t *testing.T) {
 	for i := 0; i < nDuel; i++ {
 		record(duelProgram(rng, i), rng.Intn(5) != 0)
 	}
-	var mcwg sync.WaitGroup
+	var mcwg, side sync.WaitGroup
+	defer side.Wait()
+	defer mcwg.Wait()
+	ringMCDone := make(chan struct{})
 	for _, j := range jobs {
 		mcwg.Add(1)
 		go func(j *mcJob) {
 			defer mcwg.Done()
 			j.res = tlc.Run(j.opts)
+			if j.name == "RingMC" {
+				close(ringMCDone)
+			}
 		}(j)
 	}
+	// rings and buffered ring run beside the linearization check
+	var nGraph, nRingTraces, nBuf int64
+	side.Add(1)
+	go func() {
+		defer side.Done()
+		// (2a) replay every transition of the ring model's state graph
+		<-ringMCDone
+		nGraph = replayRingGraph(e, jobs[3].res.Kept["trans.ndjson"])
+		// (2b) random walks and all short mutation sequences, validated by TLC
+		nRingTraces = ringTraces(e, rand.New(rand.NewSource(ev.Seed()+1000003)))
+		// (3) buffered ring
+		nBuf = bufTraces(e, rand.New(rand.NewSource(ev.Seed()+2000003)))
+	}()
 	fmt.Printf("histories: %d recorded (%d random, %d duels), %d with overlapping calls %v\n", len(hists), nRandom, nDuel, overlaps, byProg)
 	const chunk = 12000
 	linOpts := func(w int) tlc.Opts {
@@ -112,9 +131,9 @@ func TestCheck(t *testing.T) {
 		}
 		b := &tv.Batch{}
 		for _, h := range hists[from:to] {
-			emit(b, tv.M{"prog": h.prog.Name}, h.evs)
+			b.AppendTrace(h.lines)
 		}
-		missing, res := tv.ValidateDone(linOpts(12), b)
+		missing, res := tv.ValidateDone(linOpts(8), b)
 		fmt.Printf("TLC linearization check [%d,%d): ok=%v rejected=%d distinct=%d wall=%s %s\n", from, to, res.OK, len(missing), res.Distinct, res.Wall.Round(time.Millisecond), res.What)
 		if !res.OK {
 			e.Inconclusive("linearization trace validation did not run: " + res.What + res.Tail(1500))
@@ -132,11 +151,11 @@ func TestCheck(t *testing.T) {
 	e.Set("overlapping_by_program", byProg)
 	e.Set("linearization_search_states", linStates)
 	if len(rejected) > 0 {
-		classifyRejected(e, linOpts(8), rejected, func(i int) (program, []tv.M) { return hists[i].prog, hists[i].evs })
+		classifyRejected(e, linOpts(8), rejected, func(i int) (program, []tv.M) { return hists[i].prog, unmarshalHistory(hists[i].lines) })
 	}
 	for _, i := range []int{0, nRandom, nRandom + 2} {
 		if i < len(hists) {
-			e.Sample(tv.M{"mode": "history", "program": hists[i].prog.Name, "trace": traceText(hists[i].evs)})
+			e.Sample(tv.M{"mode": "history", "program": hists[i].prog.Name, "trace": traceText(unmarshalHistory(hists[i].lines))})
 		}
 	}
 
@@ -164,19 +183,9 @@ func TestCheck(t *testing.T) {
 	e.Set("checker_cmd", cmds)
 	e.Set("defect_models_rejected", []string{"CMapImpl lad-split (LinOK)", "CMapImpl no-doublecheck (SameHandle)", "BufRingImpl unlink-one-early (Refines)"})
 
-	// ---- (2a) rings: replay every transition of the model's state graph
-	n := replayRingGraph(e, jobs[3].res.Kept["trans.ndjson"])
-	evals += n
-
-	// ---- (2b) rings: random walks and all short mutation sequences, validated by TLC
-	n = ringTraces(e, rng)
-	evals += n
-	traces += n
-
-	// ---- (3) buffered ring
-	n = bufTraces(e, rng)
-	evals += n
-	traces += n
+	side.Wait()
+	evals += nGraph + nRingTraces + nBuf
+	traces += nRingTraces + nBuf
 
 	e.Set("evaluations", evals)
 	e.Set("traces_validated_against_impl", traces)
@@ -185,12 +194,19 @@ func TestCheck(t *testing.T) {
 	selfTest(e)
 }
 
-// classifyRejected names each rejected history by the first operation whose
+// classifyRejected names rejected histories by the first operation whose
 // result no linearization explains (shortest rejected prefix, judged by TLC).
+// One violation is reported per object: that of its shortest rejected history
+// (the most direct manifestation); the others are summarised in its replay file.
 func classifyRejected(e *ev.Evidence, o tlc.Opts, rejected []int, get func(int) (program, []tv.M)) {
-	if len(rejected) > 40 {
-		fmt.Printf("%d histories rejected; classifying the first 40\n", len(rejected))
-		rejected = rejected[:40]
+	sort.SliceStable(rejected, func(i, j int) bool {
+		_, a := get(rejected[i])
+		_, b := get(rejected[j])
+		return len(a) < len(b)
+	})
+	total := len(rejected)
+	if len(rejected) > 60 {
+		rejected = rejected[:60]
 	}
 	b := &tv.Batch{}
 	type ref struct {
@@ -217,17 +233,50 @@ func classifyRejected(e *ev.Evidence, o tlc.Opts, rejected []int, get func(int) 
 			}
 		}
 	}
+	// per object: the most frequent first-unexplained operation names the finding; its shortest history is the replay
+	type finding struct {
+		byOp  map[string][]int
+		count int
+	}
+	perObj := map[string]*finding{}
+	var order []string
+	at := map[int]int{}
 	for _, hi := range rejected {
-		p, evs := get(hi)
-		key := "lin:unclassified:history-has-no-linearization"
-		what := "concurrent history has no linearization"
+		op := "unclassified:unclassified"
 		if r, ok := first[hi]; ok {
-			key = "lin:" + r.op + ":result-not-explained-by-any-linearization"
-			what = fmt.Sprintf("concurrent history has no linearization; the first result that cannot be explained is returned by %s (record %d of the history)", r.op, r.len)
+			op, at[hi] = r.op, r.len
 		}
-		e.Violation(key, what, tv.M{"program": p, "history": traceText(evs), "raw": evs})
+		obj := op[:strings.Index(op, ":")]
+		f := perObj[obj]
+		if f == nil {
+			f = &finding{byOp: map[string][]int{}}
+			perObj[obj] = f
+			order = append(order, obj)
+		}
+		f.byOp[op] = append(f.byOp[op], hi) // rejected is sorted by history length: [0] is the shortest
+		f.count++
+	}
+	for _, obj := range order {
+		f := perObj[obj]
+		best := ""
+		counts := map[string]int{}
+		for op, hs := range f.byOp {
+			counts[op] = len(hs)
+			if best == "" || len(hs) > len(f.byOp[best]) || (len(hs) == len(f.byOp[best]) && op < best) {
+				best = op
+			}
+		}
+		hi := f.byOp[best][0]
+		p, evs := get(hi)
+		e.Violation("lin:"+best+":result-not-explained-by-any-linearization",
+			fmt.Sprintf("concurrent history has no linearization; the first result that cannot be explained is returned by %s (record %d of the history); %d histories rejected in this run", best, at[hi], total),
+			tv.M{"program": p, "history": traceText(evs), "raw": evs, "rejected_histories_total": total, "classified": f.count, "first_unexplained_op_counts": counts})
 	}
 }
+
+// operations for which the state-graph replay already reported a violation; the
+// sequence checks then only report what is new (path-dependent failures)
+var ringFlagged = map[string]bool{}
 
 func replayRingGraph(e *ev.Evidence, data []byte) int64 {
 	if len(data) == 0 {
@@ -254,25 +303,33 @@ func replayRingGraph(e *ev.Evidence, data []byte) int64 {
 			e.Inconclusive("cannot parse exported transition: " + inner)
 			return n
 		}
+		failedPlain := false
 		for _, zero := range []bool{false, true} {
 			kres, knx, kdiff := replay(kitOps, t, zero)
 			sres, snx, sdiff := replay(stdOps, t, zero)
 			n++
 			variant := ""
 			if zero {
-				variant = ":zero-value-rings"
+				variant = ":only-with-zero-value-rings"
 				if t.R != 0 && t.From[t.R-1] == t.R {
 					zeroFirst++
 				}
 			}
 			rp := tv.M{"transition": t, "expected": t.want(), "zero_value_singletons": zero, "kit_result": kres, "kit_next": knx, "std_result": sres, "std_next": snx}
+			kitStdDiffer := !reflect.DeepEqual(kres, sres) || !reflect.DeepEqual(knx, snx)
 			switch {
-			case sdiff != "" && kdiff == sdiff && reflect.DeepEqual(kres, sres) && reflect.DeepEqual(knx, snx):
+			case sdiff != "" && !kitStdDiffer:
 				e.Inconclusive(fmt.Sprintf("Ring.tla disagrees with container/ring AND ring.Ring (which agree with each other) on %s: %s — the model is wrong: %v", t.Op, sdiff, rp))
 				return n
+			case zero && failedPlain:
+				// already reported for this transition without zero-value rings
 			case kdiff != "":
+				failedPlain = !zero
+				ringFlagged[t.Op] = true
 				e.Violation("ring:"+t.Op+":"+kdiff+variant, "ring.Ring disagrees with the ring model (Ring.tla)", rp)
-			case !reflect.DeepEqual(kres, sres) || !reflect.DeepEqual(knx, snx):
+			case kitStdDiffer:
+				failedPlain = !zero
+				ringFlagged[t.Op] = true
 				e.Violation("ring:"+t.Op+":differs-from-container/ring"+variant, "ring.Ring and container/ring disagree", rp)
 			case sdiff != "":
 				e.Inconclusive(fmt.Sprintf("Ring.tla disagrees with container/ring on %s: %s: %v", t.Op, sdiff, rp))
@@ -362,9 +419,15 @@ func ringTraces(e *ev.Evidence, rng *rand.Rand) int64 {
 	}
 	var cases []rcase
 	kinds := []string{"len", "do", "next", "prev", "move", "link", "unlink"}
+	type directDiff struct {
+		trace int
+		op    string
+		at    ringEv
+	}
+	var diffs []directDiff
 	direct := func(kind string, init []int, zero bool, op string, o ringEv) {
 		if op != "" {
-			e.Violation("ring:"+op+":differs-from-container/ring:sequence", "ring.Ring and container/ring disagree within an operation sequence", tv.M{"kind": kind, "init": init, "zero_value_singletons": zero, "at": o, "kit_trace": kb.TraceStrings(kb.Len() - 1), "std_trace": sb.TraceStrings(sb.Len() - 1)})
+			diffs = append(diffs, directDiff{kb.Len() - 1, op, o})
 		}
 	}
 	// random walks: 60-100 operations; the very first one is applied to the untouched zero-value Ring
@@ -457,11 +520,19 @@ func ringTraces(e *ev.Evidence, rng *rand.Rand) int64 {
 	for _, r := range srej {
 		stdBad[r.Trace] = true
 	}
+	kitBad := map[int]bool{}
 	for _, r := range krej {
-		if stdBad[r.Trace] {
+		kitBad[r.Trace] = true
+		if stdBad[r.Trace] || ringFlagged[strings.SplitN(r.Why, ":", 2)[0]] {
 			continue
 		}
-		e.Violation("ring:"+r.Why+":sequence", "operation sequence on ring.Ring rejected by Ring.tla at event "+fmt.Sprint(r.At), tv.M{"case": cases[r.Trace], "at": r.At, "trace": kb.TraceStrings(r.Trace)})
+		e.Violation("ring:"+r.Why+":only-within-a-sequence", "operation sequence on ring.Ring rejected by Ring.tla at event "+fmt.Sprint(r.At)+" (the same operation replayed on a freshly built ring agrees with the model)", tv.M{"case": cases[r.Trace], "at": r.At, "trace": kb.TraceStrings(r.Trace)})
+	}
+	for _, d := range diffs {
+		if kitBad[d.trace] || stdBad[d.trace] || ringFlagged[d.op] {
+			continue
+		}
+		e.Violation("ring:"+d.op+":differs-from-container/ring:only-within-a-sequence", "ring.Ring and container/ring disagree within an operation sequence (where Ring.tla allows either)", tv.M{"case": cases[d.trace], "at": d.at, "kit_trace": kb.TraceStrings(d.trace), "std_trace": sb.TraceStrings(d.trace)})
 	}
 	for _, r := range srej {
 		e.Inconclusive(fmt.Sprintf("Ring.tla rejects a container/ring execution (%s at event %d): the model is wrong: %v", r.Why, r.At, sb.TraceStrings(r.Trace)))
@@ -474,47 +545,83 @@ func ringTraces(e *ev.Evidence, rng *rand.Rand) int64 {
 }
 
 func bufTraces(e *ev.Evidence, rng *rand.Rand) int64 {
-	b := &tv.Batch{}
 	var cases []bufCase
 	L := ev.Pick(9, 12)
 	all := allMutationStrings(L)
-	run := func(c bufCase) {
-		if p := runBuf(b, c); p != "" {
-			fmt.Printf("ring.Buffered panicked: %s on %+v\n", p, c)
-		}
-		cases = append(cases, c)
-		if strings.Contains(c.Muts, "AR") {
-			e.Nontrivial(fmt.Sprint("buf:", c))
-		}
-	}
 	for isz := -1; isz <= 5; isz++ {
 		for bsz := -1; bsz <= 5; bsz++ {
 			for _, m := range all {
-				run(bufCase{isz, bsz, m})
+				cases = append(cases, bufCase{isz, bsz, m})
 			}
 		}
 	}
 	nExh := len(cases)
 	for i := 0; i < ev.Pick(300, 3000); i++ {
-		run(bufCase{rng.Intn(7) - 1, rng.Intn(7) - 1, randomMutations(rng, 60+rng.Intn(141))})
+		cases = append(cases, bufCase{rng.Intn(7) - 1, rng.Intn(7) - 1, randomMutations(rng, 60+rng.Intn(141))})
 	}
-	fmt.Printf("buffered: %d exhaustive sequences of length %d x 49 size pairs + %d random; %d events\n", nExh, L, len(cases)-nExh, b.Lines())
-	rej, res := tv.Validate(tlc.Opts{Dir: specDir, Module: "TraceBuf", Config: "TraceBuf.cfg", Workers: 16, Timeout: ev.Pick(6*time.Minute, 40*time.Minute), HeapMB: 14000}, b)
-	fmt.Printf("TLC buffered validation: ok=%v rejected=%d distinct=%d wall=%s %s\n", res.OK, len(rej), res.Distinct, res.Wall.Round(time.Millisecond), res.What)
-	if !(res.OK || res.Violation) || (res.Violation && len(rej) == 0) {
-		e.Inconclusive("buffered trace validation did not run: " + res.What + res.Tail(1500))
-		return 0
+	// validated in chunks of at most ~300k events (one TLC run each, one after the other)
+	var rej []tv.Reject
+	traceOf := map[int][]string{} // rejected traces, by case index
+	events := 0
+	var sample []string
+	for from := 0; from < len(cases); {
+		b := &tv.Batch{}
+		to := from
+		for to < len(cases) && b.Lines() < 300000 {
+			c := cases[to]
+			if p := runBuf(b, c); p != "" {
+				fmt.Printf("ring.Buffered panicked: %s on %+v\n", p, c)
+			}
+			if strings.Contains(c.Muts, "AR") {
+				e.Nontrivial(fmt.Sprint("buf:", c))
+			}
+			to++
+		}
+		events += b.Lines()
+		r, res := tv.Validate(tlc.Opts{Dir: specDir, Module: "TraceBuf", Config: "TraceBuf.cfg", Workers: 6, Timeout: ev.Pick(6*time.Minute, 30*time.Minute), HeapMB: 10000}, b)
+		fmt.Printf("TLC buffered validation [%d,%d): ok=%v rejected=%d distinct=%d wall=%s %s\n", from, to, res.OK, len(r), res.Distinct, res.Wall.Round(time.Millisecond), res.What)
+		if !(res.OK || res.Violation) || (res.Violation && len(r) == 0) {
+			e.Inconclusive("buffered trace validation did not run: " + res.What + res.Tail(1500))
+			return 0
+		}
+		for _, x := range r {
+			traceOf[from+x.Trace] = b.TraceStrings(x.Trace)
+			x.Trace += from
+			rej = append(rej, x)
+		}
+		if from <= nExh/2 && nExh/2 < to {
+			sample = b.TraceStrings(nExh/2 - from)
+		}
+		from = to
 	}
-	sort.Slice(rej, func(i, j int) bool { return len(cases[rej[i].Trace].Muts) < len(cases[rej[j].Trace].Muts) })
+	fmt.Printf("buffered: %d exhaustive sequences of length %d (x 49 size pairs) + %d random; %d events\n", nExh, L, len(cases)-nExh, events)
+	// earliest failure first; a failure class seen only with clamped sizes says so in its key
+	sort.SliceStable(rej, func(i, j int) bool { return rej[i].At < rej[j].At })
+	onlyB, onlyI, count := map[string]bool{}, map[string]bool{}, map[string]int{}
+	for _, r := range rej {
+		c := cases[r.Trace]
+		if count[r.Why] == 0 {
+			onlyB[r.Why], onlyI[r.Why] = true, true
+		}
+		count[r.Why]++
+		onlyB[r.Why] = onlyB[r.Why] && c.Bsz < 1
+		onlyI[r.Why] = onlyI[r.Why] && c.Isz < 1
+	}
 	for _, r := range rej {
 		c := cases[r.Trace]
 		if strings.HasPrefix(r.Why, "harness:") {
 			e.Inconclusive("buffered harness generated an illegal sequence: " + fmt.Sprint(c))
 			continue
 		}
-		e.Violation("buf:"+r.Why, fmt.Sprintf("ring.Buffered disagrees with a FIFO queue (NewBuffered(%d, %d), mutations %s, event %d)", c.Isz, c.Bsz, c.Muts, r.At), tv.M{"case": c, "at": r.At, "trace": b.TraceStrings(r.Trace)})
+		key := "buf:" + r.Why
+		if onlyB[r.Why] {
+			key += ":only-bufferSize<1"
+		} else if onlyI[r.Why] {
+			key += ":only-initialSize<1"
+		}
+		e.Violation(key, fmt.Sprintf("ring.Buffered disagrees with a FIFO queue (NewBuffered(%d, %d), mutations %s, event %d; %d sequences rejected this way)", c.Isz, c.Bsz, c.Muts, r.At, count[r.Why]), tv.M{"case": c, "at": r.At, "trace": traceOf[r.Trace][:r.At+1]})
 	}
-	e.Sample(tv.M{"mode": "buffered", "case": cases[nExh/2], "trace": b.TraceStrings(nExh / 2)})
+	e.Sample(tv.M{"mode": "buffered", "case": cases[nExh/2], "trace": sample})
 	e.Set("buffered_exhaustive_sequences", int64(nExh))
 	e.Set("buffered_random_sequences", int64(len(cases)-nExh))
 	return int64(len(cases))
@@ -550,30 +657,25 @@ func selfTest(e *ev.Evidence) {
 			fmt.Printf("self-test linearization: missing=%v %s\n", missing, res.What)
 		}
 	}
-	// ring: a genuine walk accepted, the same with one result altered rejected
+	// ring: a hand-written correct trace accepted, the same with one result altered rejected
 	{
-		kb, sb := &tv.Batch{}, &tv.Batch{}
-		plan := []ringEv{{Op: "link", R: 1, S: 4}, {Op: "do", R: 1}, {Op: "unlink", R: 2, N: 2}, {Op: "do", R: 2}, {Op: "prev", R: 4}}
-		f := func(step, _ int) (ringEv, bool) {
-			if step >= len(plan) {
-				return ringEv{}, false
-			}
-			return plan[step], true
-		}
-		driveRings(kb, sb, ringInit(3, 0), true, f)
-		lines := kb.Trace(0)
-		bad := make([][]byte, len(lines))
-		copy(bad, lines)
-		bad[2] = bytes.Replace(lines[2], []byte(`"res":[1,4,2,3]`), []byte(`"res":[1,2,3,4]`), 1)
 		b := &tv.Batch{}
-		b.AppendTrace(lines)
-		b.AppendTrace(bad)
+		mk := func(do1 []int) {
+			b.Start(tv.M{"n": 4, "init": []int{2, 3, 1, 4}, "impl": "selftest"})
+			b.Ev("op", tv.M{"op": "link", "r": 1, "s": 4, "n": 0, "res": 2, "to": []int{4, 3, 1, 2}})
+			b.Ev("op", tv.M{"op": "do", "r": 1, "s": 0, "n": 0, "res": do1, "to": []int{4, 3, 1, 2}})
+			b.Ev("op", tv.M{"op": "unlink", "r": 2, "s": 0, "n": 2, "res": 3, "to": []int{3, 4, 1, 2}})
+			b.Ev("op", tv.M{"op": "do", "r": 2, "s": 0, "n": 0, "res": []int{2, 4}, "to": []int{3, 4, 1, 2}})
+			b.Ev("op", tv.M{"op": "prev", "r": 4, "s": 0, "n": 0, "res": 2, "to": []int{3, 4, 1, 2}})
+		}
+		mk([]int{1, 4, 2, 3})
+		mk([]int{1, 2, 3, 4})
 		rej, res := tv.Validate(tlc.Opts{Dir: specDir, Module: "TraceRing", Config: "TraceRing.cfg", Workers: 2, Timeout: 2 * time.Minute}, b)
-		rok := !bytes.Equal(bad[2], lines[2]) && len(rej) == 1 && rej[0].Trace == 1 && rej[0].At == 2
+		rok := res.OK && len(rej) == 1 && rej[0].Trace == 1 && rej[0].At == 2
 		out["ring_valid_accepted_and_corrupted_rejected"] = rok
 		if !rok {
 			ok = false
-			fmt.Printf("self-test ring: rej=%v %s %s\n", rej, res.What, lines[2])
+			fmt.Printf("self-test ring: rej=%v %s\n", rej, res.What)
 		}
 		// the replay comparator must notice a wrong implementation: Move that ignores negative arguments
 		mut := kitOps
@@ -589,24 +691,27 @@ func selfTest(e *ev.Evidence) {
 		out["ring_replay_detects_mutant"] = mok
 		ok = ok && mok
 	}
-	// buffered: genuine accepted, one with a swapped Range rejected
+	// buffered: a hand-written correct trace accepted, one with a swapped Range rejected
 	{
 		b := &tv.Batch{}
-		runBuf(b, bufCase{1, 1, "AAARA"})
-		lines := b.Trace(0)
-		bad := make([][]byte, len(lines))
-		copy(bad, lines)
-		last := len(lines) - 1
-		bad[last] = bytes.Replace(lines[last], []byte(`"range":[2,3,4]`), []byte(`"range":[3,2,4]`), 1)
-		b2 := &tv.Batch{}
-		b2.AppendTrace(lines)
-		b2.AppendTrace(bad)
-		rej, res := tv.Validate(tlc.Opts{Dir: specDir, Module: "TraceBuf", Config: "TraceBuf.cfg", Workers: 2, Timeout: 2 * time.Minute}, b2)
-		bok := !bytes.Equal(bad[last], lines[last]) && len(rej) == 1 && rej[0].Trace == 1 && rej[0].At == last
+		mk := func(last []int) {
+			b.Start(tv.M{"isz": 1, "bsz": 0})
+			b.Ev("op", tv.M{"op": "obs", "len": 0, "front": 0, "range": []int{}, "n": 1, "prange": []int{}})
+			b.Ev("op", tv.M{"op": "append", "v": 1, "n": 0, "res": 0})
+			b.Ev("op", tv.M{"op": "append", "v": 2, "n": 0, "res": 0})
+			b.Ev("op", tv.M{"op": "append", "v": 3, "n": 0, "res": 0})
+			b.Ev("op", tv.M{"op": "obs", "len": 3, "front": 1, "range": []int{1, 2, 3}, "n": 2, "prange": []int{1, 2}})
+			b.Ev("op", tv.M{"op": "remove", "v": 0, "n": 0, "res": 2})
+			b.Ev("op", tv.M{"op": "obs", "len": 2, "front": 2, "range": last, "n": 1, "prange": []int{2}})
+		}
+		mk([]int{2, 3})
+		mk([]int{3, 2})
+		rej, res := tv.Validate(tlc.Opts{Dir: specDir, Module: "TraceBuf", Config: "TraceBuf.cfg", Workers: 2, Timeout: 2 * time.Minute}, b)
+		bok := res.OK && len(rej) == 1 && rej[0].Trace == 1 && rej[0].At == 7
 		out["buffered_valid_accepted_and_corrupted_rejected"] = bok
 		if !bok {
 			ok = false
-			fmt.Printf("self-test buffered: rej=%v %s %s\n", rej, res.What, lines[last])
+			fmt.Printf("self-test buffered: rej=%v %s\n", rej, res.What)
 		}
 	}
 	e.Set("binding_selftest", out)
